@@ -248,6 +248,11 @@ def _mk_table(W, data, names, include):
         elif present and tn <= {"SymDT"}:
             arr = np.array(vals, present[0].dtype) if not any(isnull) else np.array([np.datetime64("NaT") if v is None else v for v in vals], present[0].dtype)
             mask = np.isnat(arr)
+        elif present and tn <= {"SymTD"}:
+            # duration columns come back as timedelta64 with NaT for nulls
+            dt = f"timedelta64[{present[0].unit}]"
+            arr = np.array([np.timedelta64("NaT") if v is None else v for v in vals], dt)
+            mask = np.isnat(arr)
         else:
             arr = np.array(vals, object); mask = np.array(isnull, bool)
         cols[nm] = _FakeSeries(W, arr, mask)
